@@ -236,7 +236,9 @@ Proof.
 Qed.
 
 (* ------------------------------------------------------------------ Filter over a well-behaved iterable *)
-Definition acc_of (p : val -> bool) (cv : cur * val) : bool := p (snd cv).
+Definition is_some {A} (o : option A) : bool := match o with Some _ => true | None => false end.
+(* accepted = the predicate answers with ANY non-NULL object; the chain keeps the element's own cursor and item *)
+Definition acc_of (p : val -> option val) (cv : cur * val) : bool := is_some (p (snd cv)).
 
 Lemma skipn_cons_nth {A} (l : list A) : forall i x, nth_error l i = Some x -> skipn i l = x :: skipn (S i) l.
 Proof.
@@ -284,7 +286,7 @@ Proof.
     unfold cur_at at 1. rewrite E. rewrite (skipn_cons_nth _ _ _ E).
     destruct k as [|k]; [lia|].
     cbn [option_map fst filter_loop filter]. rewrite (wb_val _ _ _ H _ _ _ E). cbn [bind].
-    unfold acc_of at 1. cbn [snd]. destruct (p v); [reflexivity|].
+    unfold acc_of at 1. cbn [snd]. destruct (p v); cbn [is_some]; [reflexivity|].
     rewrite (wb_next _ _ _ H _ _ _ E). cbn [bind]. apply IHm; lia.
 Qed.
 
@@ -300,7 +302,7 @@ Proof.
     cbn [cur_before]. unfold cur_at at 1. rewrite E. rewrite (firstn_snoc_nth _ _ _ E).
     destruct k as [|k]; [lia|].
     cbn [option_map fst filter_loop]. rewrite (wb_val _ _ _ H _ _ _ E). cbn [bind].
-    rewrite filter_app. cbn [filter]. change (acc_of p (c, v)) with (p v). destruct (p v).
+    rewrite filter_app. cbn [filter]. change (acc_of p (c, v)) with (is_some (p v)). destruct (p v); cbn [is_some].
     + cbv zeta. rewrite app_length. cbn [length]. rewrite Nat.add_1_r. cbn [cur_before].
       unfold cur_at. rewrite nth_error_app2 by lia. now rewrite Nat.sub_diag.
     + rewrite (wb_prev _ _ _ H _ _ _ E). cbn [bind]. rewrite app_nil_r. apply IHi; lia.
@@ -344,7 +346,21 @@ Proof.
     now rewrite cur_before_firstn by lia.
 Qed.
 
-Lemma filter_chain_snd p cvs : map snd (filter (acc_of p) cvs) = filter p (map snd cvs).
+(* what the predicate answers with is irrelevant beyond NULL / non-NULL: two predicates accepting the same
+   items give the same chain - the SAME cursors and items of the underlying iterable (identity), in order *)
+Lemma filter_answer_irrelevant f u cvs p q : wb f u cvs -> (length cvs <= f)%nat ->
+  (forall v, is_some (p v) = is_some (q v)) ->
+  filter (acc_of p) cvs = filter (acc_of q) cvs /\
+  wb f (IFilter p u) (filter (acc_of q) cvs) /\
+  (forall i c v, nth_error (filter (acc_of p) cvs) i = Some (c, v) -> In (c, v) cvs).
+Proof.
+  intros H Hf Hpq.
+  assert (E : filter (acc_of p) cvs = filter (acc_of q) cvs) by (apply filter_ext; intros [c v]; apply Hpq).
+  split; [exact E|]. split; [rewrite <- E; now apply wb_filter|].
+  intros i c v Hn. apply nth_error_In in Hn. now apply filter_In in Hn.
+Qed.
+
+Lemma filter_chain_snd p cvs : map snd (filter (acc_of p) cvs) = filter (fun v => is_some (p v)) (map snd cvs).
 Proof.
   induction cvs as [|[c v] l IH]; simpl; auto. unfold acc_of at 1. simpl.
   destruct (p v); simpl; now rewrite IH.
@@ -1274,7 +1290,7 @@ Proof. intros H. split; [now apply wb_map | apply map_chain_snd]. Qed.
 
 Lemma filter_summary f u cvs p : wb f u cvs -> (length cvs <= f)%nat ->
   wb f (IFilter p u) (filter (acc_of p) cvs) /\
-  map snd (filter (acc_of p) cvs) = filter p (map snd cvs).
+  map snd (filter (acc_of p) cvs) = filter (fun v => is_some (p v)) (map snd cvs).
 Proof. intros H Hf. split; [now apply wb_filter | apply filter_chain_snd]. Qed.
 
 Lemma slice_summary f u cvs r : wb f u cvs -> it_len R u = OVal (zlen cvs) -> slice_ok r (zlen cvs) ->
@@ -1315,7 +1331,7 @@ Qed.
 (* depth 3: filter (map (slice u)) over ANY well-behaved u, e.g. another view *)
 Lemma nested_views f u cvs r g p : wb f u cvs -> it_len R u = OVal (zlen cvs) -> slice_ok r (zlen cvs) ->
   (length cvs <= f)%nat ->
-  iterates f (IFilter p (IMap g (ISlice u r))) (filter p (map g (slice_sel r (map snd cvs)))).
+  iterates f (IFilter p (IMap g (ISlice u r))) (filter (fun v => is_some (p v)) (map g (slice_sel r (map snd cvs)))).
 Proof.
   intros H Hl Hok Hf.
   pose proof (wb_slice f u cvs r H Hl Hok) as H1.
